@@ -4,6 +4,8 @@ package c05
 
 import (
 	"fmt"
+	"os"
+	"os/exec"
 	"runtime"
 	"sort"
 	"strings"
@@ -34,11 +36,12 @@ type universe struct {
 	mu    sync.Mutex
 	truth map[uint64]H
 	forks map[uint64]map[uint64]H // fork diverging at f: heights f.. (fork[f].Prev = hash(truth[f-1]))
+	marked map[uint64]map[uint64]H
 	start uint64                  // from.Height()+1
 }
 
 func newUniverse() *universe {
-	u := &universe{truth: map[uint64]H{}, forks: map[uint64]map[uint64]H{}}
+	u := &universe{truth: map[uint64]H{}, forks: map[uint64]map[uint64]H{}, marked: map[uint64]map[uint64]H{}}
 	for _, h := range vhdr.Chain("a", 1, chainLen, farPast, 10, nil) {
 		u.truth[h.H] = h
 	}
@@ -72,7 +75,49 @@ type beh struct {
 	j    int
 }
 
-var byzantine = []string{"shift", "shiftback", "dup", "reorder", "forkfrom", "forkmid", "forgedlink", "wrongchain", "invalid",
+// Type-level Verify used by this driver: vhdr.LinkPolicy, except that it PANICS on marked headers
+// (the mark is in the timestamp, which the Gallina twin vhdr_tvp sees): T%10 == 7: for every
+// trusted header; T%10 == 3: only when the marked header is adjacent to the trusted one.
+func panicPolicy(trust uint64) vhdr.Policy {
+	lp := vhdr.LinkPolicy(trust)
+	return func(t, u *vhdr.Header) error {
+		switch u.T % 10 {
+		case 7:
+			panic("vhdr: scripted verify panic")
+		case 3:
+			if u.H == t.H+1 {
+				panic("vhdr: scripted verify panic (adjacent)")
+			}
+		}
+		return lp(t, u)
+	}
+}
+
+// markedFork: like fork(f), but its first header carries the "panics when verified adjacently" mark
+func (u *universe) markedFork(f uint64) map[uint64]H {
+	u.mu.Lock()
+	defer u.mu.Unlock()
+	if m, ok := u.marked[f]; ok {
+		return m
+	}
+	m := map[uint64]H{}
+	var prev []byte
+	if p, ok := u.truth[f-1]; ok {
+		prev = p.Hash()
+	}
+	for h := f; h <= chainLen+8; h++ {
+		x := &vhdr.Header{Chain: "a", H: h, T: farPast + int64(h)*10, Prev: prev, Nonce: 5000 + f}
+		if h == f {
+			x.T += 3
+		}
+		m[h] = x
+		prev = x.Hash()
+	}
+	u.marked[f] = m
+	return m
+}
+
+var byzantine = []string{"forkearlier", "verifypanic", "panicadj", "shift", "shiftback", "dup", "reorder", "forkfrom", "forkmid", "forgedlink", "wrongchain", "invalid",
 	"future", "gap", "nfafter", "unknown", "undecodable", "decpanic", "garbage", "hang", "reset", "empty", "garbage0", "hang0"}
 var benign = []string{"honest", "partial", "overlong", "notfound"}
 
@@ -128,6 +173,36 @@ func (b beh) reply(u *universe, o, a uint64) sess.Reply {
 		return sess.Reply{Frames: hdrFrames(hs)}
 	case "forkfrom":
 		f := u.fork(o)
+		var hs []H
+		for h := o; h < o+a; h++ {
+			hs = append(hs, f[h])
+		}
+		return sess.Reply{Frames: hdrFrames(hs)}
+	case "forkearlier":
+		// a fork that diverged one height before the requested origin: consistent in itself, starts at the
+		// origin, but its first header does not link to the true header below the origin
+		var f map[uint64]H
+		if o > u.start {
+			f = u.fork(o - 1)
+		} else {
+			f = u.fork(o)
+		}
+		var hs []H
+		for h := o; h < o+a; h++ {
+			hs = append(hs, f[h])
+		}
+		return sess.Reply{Frames: hdrFrames(hs)}
+	case "verifypanic":
+		// the header at position j makes the type-level Verify panic whatever it is verified against
+		hs := append([]H(nil), hon...)
+		c := clone(hs[j])
+		c.T += 7
+		hs[j] = c
+		return sess.Reply{Frames: hdrFrames(hs)}
+	case "panicadj":
+		// a linked fork whose first header makes the type-level Verify panic only when it is verified
+		// against the header directly below it
+		f := u.markedFork(o)
 		var hs []H
 		for h := o; h < o+a; h++ {
 			hs = append(hs, f[h])
@@ -327,6 +402,30 @@ func fixedScenarios(u *universe) []scenario {
 	mixed := uniform(2, nil, hon)
 	mixed.deflt[1] = beh{kind: "forkfrom"}
 	out = append(out, scenario{name: "true-then-fork-chunk", peers: 2, chunk: 3, from: u.truth[5], to: 5 + 1 + 6, plan: mixed})
+	// a chunk answered only partially, its remainder served by another peer from a fork that starts at the
+	// remainder's origin, is consistent in itself but does not link to the partial answer: the boundary lies
+	// INSIDE a requested chunk. Peer 0: the cut answer, then nothing (dropped); peer 1: NOT_FOUND once (so that
+	// peer 0 goes first whatever the queue order), then the fork.
+	for _, chunk := range []uint64{4, 5, 8} {
+		for cut := 1; cut < int(chunk); cut++ {
+			for _, extra := range []uint64{0, 3} {
+				p := plan{first: [][]beh{{{kind: "partial", j: cut - 1}}, {{kind: "notfound"}}},
+					deflt: []beh{{kind: "empty"}, {kind: "forkearlier"}}}
+				out = append(out, scenario{name: fmt.Sprintf("partial-then-fork-c%d-cut%d+%d", chunk, cut, extra), peers: 2, chunk: chunk,
+					from: u.truth[3], to: 3 + 1 + chunk + extra, plan: p, expect: "other"})
+			}
+		}
+	}
+	// a header on which the type-level Verify panics: inside a chunk (recovered by session.processResponses:
+	// a failed request), and as first header of a non-first chunk (verified adjacently only by the boundary check)
+	for _, chunk := range []uint64{1, 3} {
+		p := uniform(3, []beh{{kind: "verifypanic", j: 1}}, hon)
+		p.first[2] = nil
+		out = append(out, scenario{name: "verify-panics-in-chunk", peers: 3, chunk: chunk, from: u.truth[5], to: 5 + 1 + 7, plan: p, expect: "ok"})
+	}
+	pa := uniform(2, nil, hon)
+	pa.deflt[1] = beh{kind: "panicadj"}
+	out = append(out, scenario{name: "verify-panics-at-boundary", peers: 2, chunk: 3, from: u.truth[5], to: 5 + 1 + 9, plan: pa})
 	// every single behaviour on the first attempt of every peer, one honest peer as fallback
 	for _, k := range append(append([]string{}, byzantine...), benign...) {
 		for _, chunk := range []uint64{1, 3} {
@@ -343,11 +442,7 @@ func runScenario(t *testing.T, w *emit.Writer, reg *vhdr.Registry, u *universe, 
 	var log []sess.Event
 	u.start = sc.from.H + 1
 	synctest.Test(t, func(t *testing.T) {
-		if sc.trust != 0 {
-			vhdr.SetPolicy(vhdr.LinkPolicy(sc.trust))
-		} else {
-			vhdr.SetPolicy(nil)
-		}
+		vhdr.SetPolicy(panicPolicy(sc.trust))
 		wd := sess.NewWorld(t, sc.peers, sc.chunk, reqTO, "a", synctest.Wait)
 		for i := 0; i < sc.peers; i++ {
 			wd.Script(i, func(_ *sess.World, p int, origin, amount uint64, att int) (sess.Reply, string) {
@@ -408,6 +503,67 @@ func runScenario(t *testing.T, w *emit.Writer, reg *vhdr.Registry, u *universe, 
 	}
 }
 
+// ---- the verify-panic probe: a panic of the type-level Verify outside the session's recover happens on a
+// request goroutine and kills the whole process; it can only be observed from outside
+
+func probeScenario(u *universe) scenario {
+	p := uniform(1, []beh{{kind: "verifypanic", j: 1}}, beh{kind: "honest"})
+	return scenario{name: "probe-verify-panics-in-chunk", peers: 1, chunk: 4, from: u.truth[5], to: 5 + 1 + 3, plan: p}
+}
+
+// TestC05VerifyPanicChild is the child side of the probe (skipped unless started by probeVerifyPanic).
+func TestC05VerifyPanicChild(t *testing.T) {
+	if os.Getenv("VERIF_C05_PANIC_CHILD") == "" {
+		t.Skip("child side of the verify-panic probe")
+	}
+	u := newUniverse()
+	sc := probeScenario(u)
+	u.start = sc.from.H + 1
+	synctest.Test(t, func(t *testing.T) {
+		vhdr.SetPolicy(panicPolicy(0))
+		wd := sess.NewWorld(t, sc.peers, sc.chunk, reqTO, "a", synctest.Wait)
+		wd.Script(0, func(_ *sess.World, p int, origin, amount uint64, att int) (sess.Reply, string) {
+			b := sc.plan.at(p, att)
+			return b.reply(u, origin, amount), b.kind
+		})
+		o := wd.Call(sc.from, sc.to, time.Minute)
+		synctest.Wait()
+		fmt.Println("C05-CHILD-SURVIVED", o.Kind)
+		wd.Close()
+	})
+}
+
+func probeVerifyPanic(t *testing.T) bool {
+	cmd := exec.Command(os.Args[0], "-test.run=^TestC05VerifyPanicChild$", "-test.timeout=120s")
+	cmd.Env = append(os.Environ(), "VERIF_C05_PANIC_CHILD=1")
+	out, err := cmd.CombinedOutput()
+	switch {
+	case strings.Contains(string(out), "C05-CHILD-SURVIVED"):
+		return true
+	case err != nil && strings.Contains(string(out), "scripted verify panic"):
+		lines := strings.SplitN(string(out), "\n", 12)
+		t.Logf("the client process is killed by a response on which the header type's Verify panics:\n%s", strings.Join(lines[:min(len(lines), 10)], "\n"))
+		return false
+	default:
+		t.Fatalf("inconclusive verify-panic probe (%v):\n%s", err, out)
+		return false
+	}
+}
+
+func (p plan) panics() bool {
+	for i := range p.first {
+		for _, b := range p.first[i] {
+			if b.kind == "verifypanic" || b.kind == "panicadj" {
+				return true
+			}
+		}
+		if k := p.deflt[i].kind; k == "verifypanic" || k == "panicadj" {
+			return true
+		}
+	}
+	return false
+}
+
 func TestC05(t *testing.T) {
 	defer runtime.GOMAXPROCS(runtime.GOMAXPROCS(1)) // fewer schedules: reruns of a seed give the same log far more often
 	rng := emit.NewRand(emit.Seed())
@@ -426,9 +582,32 @@ func TestC05(t *testing.T) {
 	reg := vhdr.NewRegistry()
 	u := newUniverse()
 	var drift time.Duration
-	synctest.Test(t, func(t *testing.T) { drift = header.VerifClockDrift() })
-	for _, sc := range fixedScenarios(u) {
+	var epoch int64
+	synctest.Test(t, func(t *testing.T) { drift = header.VerifClockDrift(); epoch = time.Now().UnixNano() })
+	// a Verify panic that kills the process cannot be observed in-process: probe it once in a child; if the
+	// client does not survive, report that scenario as the observed panic and keep such answers out of this process
+	panicSafe := probeVerifyPanic(t)
+	w.Extra["client_survives_verify_panic_in_response"] = panicSafe
+	if !panicSafe {
+		sc := probeScenario(u)
+		u.start = sc.from.H + 1
+		rep := sc.plan.at(0, 0).reply(u, sc.from.H+1, sc.to-sc.from.H-1)
+		log := []sess.Event{{Peer: 0, Now: epoch, Origin: sc.from.H + 1, Amount: sc.to - sc.from.H - 1, Frames: rep.Frames, Behave: "verifypanic"}}
+		term := fmt.Sprintf("Case05 %s 0 %d %d %s %d [0] %s OPanic", emit.Z(int64(drift)), sess.MaxCap, sc.chunk,
+			reg.Term(sc.from), sc.to, sess.LogTerm(reg, log))
+		w.Add(term, map[string]any{"scenario": sc.name, "peers": 1, "chunk": sc.chunk, "from": sc.from.H, "to": sc.to, "log": sess.Summary(log),
+			"obs": "panic", "detail": "observed in a child process: the whole client process died (panic on a request goroutine)"}, "probe/verifypanic", false)
+		w.Count("observation", "process killed by verify panic")
+	}
+	run := func(sc scenario) {
+		if !panicSafe && sc.plan.panics() {
+			w.Count("skipped", "would kill the driver: verify panic")
+			return
+		}
 		runScenario(t, w, reg, u, sc, drift)
+	}
+	for _, sc := range fixedScenarios(u) {
+		run(sc)
 	}
 	if emit.Thorough() {
 		// exhaustive small scope: every pair of first-attempt behaviours of two peers (third peer honest),
@@ -439,12 +618,12 @@ func TestC05(t *testing.T) {
 			for _, k1 := range all {
 				p := plan{first: [][]beh{{{kind: k0, d: 2, j: 1}}, {{kind: k1, d: 2, j: 1}}, nil},
 					deflt: []beh{{kind: "honest"}, {kind: "honest"}, {kind: "honest"}}}
-				runScenario(t, w, reg, u, scenario{name: "pair-" + k0 + "-" + k1, peers: 3, chunk: 2, from: u.truth[4], to: 4 + 1 + 5, plan: p}, drift)
+				run(scenario{name: "pair-" + k0 + "-" + k1, peers: 3, chunk: 2, from: u.truth[4], to: 4 + 1 + 5, plan: p})
 			}
 		}
 	}
 	for i := 0; i < n; i++ {
-		runScenario(t, w, reg, u, randomScenario(rng, u, i), drift)
+		run(randomScenario(rng, u, i))
 	}
 	if err := w.Flush(); err != nil {
 		t.Fatal(err)
